@@ -685,7 +685,9 @@ class Prop(fw.PropBase):
             mc = fw.run_model('C08', 2, [[[norm_task(None, t) for t in c['tasks']], c['bp']] for c in chunks])
             for c, m, r in zip(chunks, mc, res['chunks']):
                 exp = [[[t[0], t[2], t[3], t[4], t[5]] for t in job] for job in m]
-                if isinstance(r, dict) or r != exp:
+                # the statement needs bp_chunked to preserve the task list (every task in exactly one job, order kept);
+                # where the chunk boundaries fall, and whether an empty chunk is emitted, is scheduling
+                if isinstance(r, dict) or [t for job in r for t in job] != [t for job in exp for t in job]:
                     loop_dis.append({'kind': 'bp_chunked', 'input': c, 'model': exp, 'impl': r})
             # per task prediction of the model (which reads every task writes) and its precondition / owner count
             m0_in, m1_in, idx = [], [], []
